@@ -192,13 +192,14 @@ func VerifC07_UnTarIndex() {
 	vAssert(Tar(context.Background(), &archive, NewLocalFS(root+"/src", LocalFSOptions{})) == nil, "Tar failed")
 	vSchedFixed(false)
 	data := archive.Bytes()
-	// two chunks, cut between the two entries' elements
-	cut := len(data) / 2
+	// two chunks: cut in the middle of an element, or exactly on element boundaries (after the
+	// root entry, after the first file's node) - a stream that ends there looks complete to a decoder
+	cut := []int{len(data) / 2, 64, 163}[vChoose("chunk-boundary", 3)]
 	vFSYield(false) // only the pipeline's own synchronisation points are cancellation instants here
 	// the pipeline's goroutines hand over deterministically when one blocks; what is explored
 	// is where the cancelling goroutine preempts that run (every synchronisation point)
-	vSchedBlockFixed(true)
-	st := &verifStore{}
+	vSchedBlockFixed(true) // (all schedules of this five-goroutine pipeline within the preemption bound did not finish within the time budget)
+	st := &verifStore{yield: true} // a store request takes time: the cancellation can arrive while a chunk is being fetched
 	idx := Index{Index: FormatIndex{FeatureFlags: CaFormatSHA512256 | TarFeatureFlags, ChunkSizeMin: 1, ChunkSizeAvg: 1, ChunkSizeMax: uint64(len(data))}}
 	for _, r := range [][2]int{{0, cut}, {cut, len(data)}} {
 		id := st.add(data[r[0]:r[1]])
